@@ -13,8 +13,14 @@ import (
 // entry may move between those two sections without changing the hash.
 func vxDiff(tag string) *StateDiff {
 	d := EmptyStateDiff()
-	if vx.Bool(tag + "hasStorage") {
+	switch vx.Choice(tag+"storage", 3) {
+	case 1:
 		d.StorageDiffs[*vxFelt(tag + "st.addr")] = map[felt.Felt]*felt.Felt{*vxFelt(tag + "st.key"): vxFelt(tag + "st.val")}
+	case 2:
+		// a contract listed under storage_diffs without any key/value pair: the list of updated contracts
+		// is committed too (its length and every address), not only the pairs
+		d.StorageDiffs[*vxFelt(tag + "st.addr")] = map[felt.Felt]*felt.Felt{}
+		vx.Cover("contract-listed-without-storage-entries")
 	}
 	if vx.Bool(tag + "hasNonce") {
 		d.Nonces[*vxFelt(tag + "n.addr")] = vxFelt(tag + "n.val")
@@ -48,7 +54,7 @@ func vxSameMap(a, b map[felt.Felt]*felt.Felt) bool {
 }
 
 func VxC02StateDiffHash() {
-	vx.Bound("two arbitrary state diffs with 0..1 entry per section (storage write, nonce, deployed-or-replaced contract, declared v1 class, declared v0 class), every address / key / value symbolic")
+	vx.Bound("two arbitrary state diffs with 0..1 entry per section (storage write or a contract listed with an empty storage map, nonce, deployed-or-replaced contract, declared v1 class, declared v0 class), every address / key / value symbolic")
 	a, b := vxDiff("a."), vxDiff("b.")
 	h1, h2 := a.Hash(), b.Hash()
 	vx.CollisionFree()
